@@ -162,12 +162,12 @@ package hessian
 //@   let hdr    = ite(typed, G.listHdrTyped(old(@tr), old(mapget(e.nameMap, tn)), cnt), G.listHdrUntyped(old(@tr), cnt))
 //@   let isRef  = @tr == G.ref(old(@tr), int64(ti.v(last(@tr))))
 //@   loop 1 invariant [C15,C13:flags-loop] 0 <= i && i <= cnt && (@W ==> old(@W)) && (@E ==> old(@E))
-//@   loop 1 invariant [C02,C01:list-elems] @tr == G.elems(hdr, gvv, i)
+//@   loop 1 invariant [C02,C01,C16:list-elems] @tr == G.elems(hdr, gvv, i)
 //@   loop 1 invariant [C04:inv-ordinals] mapsize(e.refMap) + @clashes == @opens
 //@   ensures [C15:W] (@W && !old(@W)) ==> err != nil
 //@   ensures [C13:E] (@E && !old(@E)) ==> err != nil
 //@   ensures [C02,C09:list-bytes]            err == nil && istype(data, "[]byte") ==> @tr == snoc(old(@tr), TBin(i.bytes(data)))
-//@   ensures [C02,C01,C13:list-production]   err == nil && !istype(data, "[]byte") && !isRef ==> @tr == G.elems(hdr, gvv, cnt)
+//@   ensures [C02,C01,C13,C16:list-production] err == nil && !istype(data, "[]byte") && !isRef ==> @tr == G.elems(hdr, gvv, cnt)
 //@   ensures [C04:inv-ordinals]              err == nil ==> mapsize(e.refMap) + @clashes == @opens
 
 //@ func (*Encoder).writeMap
